@@ -198,13 +198,14 @@ class CallGraph:
             elif k == "switch":
                 self._operand_edges(fid, t["d"], "switch")
 
-    def reachable(self, roots, wild_roots=True):
+    def reachable(self, roots, wild_roots=True, cut=()):
+        """bodies reachable from roots; bodies in `cut` are neither entered nor traversed"""
         seen = {}
         rootset = set(roots)
         st = [(r, None) for r in roots]
         while st:
             f, par = st.pop()
-            if f in seen:
+            if f in seen or f in cut:
                 continue
             seen[f] = par
             for t in sorted(self.edges.get(f, ())):
